@@ -99,7 +99,8 @@ def execute_here(plan, keep_events=False):
                 proc.node, proc.round = j, 0
                 kernel.set_current(proc)
                 try:
-                    cl.node_call(data_dir, T, N, j, C)
+                    cl.node_call(data_dir, T, N, j, C,
+                                 plan.get('delete_existing', False))
                     node_results[(0, j)] = 'returned'
                 except Exception as e:
                     node_results[(0, j)] = [type(e).__name__,
@@ -121,7 +122,8 @@ def execute_here(plan, keep_events=False):
                     proc.node, proc.round = j, rnd
 
                     def body(j=j):
-                        cl.node_call(data_dir, T, N, j, C)
+                        cl.node_call(data_dir, T, N, j, C,
+                                     plan.get('delete_existing', False))
                     tasks[j] = sched.spawn(proc.name, body, proc=proc,
                                            group=j)
                 ok = sched.run()
@@ -340,6 +342,7 @@ def run_args_block(job):
                     'mode': 'args', 'n_inputs': I, 'n_nodes': N,
                     'n_cores': C, 'trials': T,
                     'cpu_count': C + rng.choice([0, 0, 1, 8]),
+                    'delete_existing': rng.random() < 0.3,
                     'listing_perm': perm}
             o = execute(plan)
             absorb(summ, plan, o)
@@ -364,6 +367,9 @@ def gen_full_plan(seed):
             'bufsize': rng.choice([64, 8192]),
             'inputs': [input_spec(i, n_rates=rng.choice([1, 1, 2]))
                        for i in range(I)],
+            # every node of the job array runs the same command line, so the
+            # flag is either on for all of them or for none
+            'delete_existing': rng.random() < 0.35,
             'preempt': []}
     if rng.random() < 0.6:
         for _ in range(rng.choice([1, 1, 2])):
@@ -386,7 +392,7 @@ def run_full_block(job):
             summ['sample_full'] = {
                 k: plan[k] for k in ('n_inputs', 'n_nodes', 'n_cores',
                                      'trials', 'policy', 'preempt',
-                                     'listing_perm')}
+                                     'listing_perm', 'delete_existing')}
             summ['sample_full']['split'] = o['info'].get('split')
             summ['sample_full']['scheduler_steps'] = o['steps']
     return pack(summ)
@@ -533,6 +539,10 @@ def shrink(plan, want_sig, max_exec=150):
                         q['preempt'] = [x for x in q['preempt']
                                         if x['node'] <= q['n_nodes']]
                     yield q
+        if p.get('delete_existing'):
+            q = copy.deepcopy(p)
+            q['delete_existing'] = False
+            yield q
         if p.get('policy') not in (None, 'round_robin'):
             q = copy.deepcopy(p)
             q['policy'] = 'round_robin'
